@@ -45,11 +45,8 @@ def ob(name, added, m0=R | C, m1=R | W, et0=0, et1=1, extra=(), **kw):
     return d
 
 def obligations(tier):
-    kf = ["KF_SKIP_DOUBLE_CLOSE"]
+    kf = []   # (the confirmed double close of the signal pair was fixed in /repo 991d6c8: the assertion is part of every obligation)
     obs = []
-    # the confirmed DESIGN candidate: signal pair closed by event_reinit and again by evsig_dealloc_
-    obs.append(ob("reinit_kf_double_close", 7, extra=[],
-                  expect_fail=["event_reinit closes a descriptor number it has already closed"], known_finding="KF-C11-reinit-double-close"))
     for added in (7, 3, 4, 5, 1, 0):
         obs.append(ob("epoll_added%d" % added, added, extra=kf))
     obs.append(ob("epoll_masks_w_rwc", 7, m0=W, m1=R | W | C, et0=1, et1=0, extra=kf))
